@@ -184,6 +184,16 @@ pub fn check_c11(history: &History) -> Check {
     let mut queued: Vec<(&WriteView, usize)> = Vec::new();
     for write in &writes {
         if write.err { continue; }
+        if write.kind == "forgotten-put" {
+            // never polled: no status to compare; if it ran it takes part in the order checks below
+            if let Outcome::Write { ack, .. } = &write.rec.outcome {
+                if let Some(at) = position.get(ack) {
+                    ensure!(!drained.contains(ack), "C11", "C11/executed-and-drained", "a command was both executed and drained");
+                    queued.push((write, *at));
+                }
+            }
+            continue;
+        }
         let ack = if let Outcome::Write { ack, immediate, earlier_pending, stalled, .. } = &write.rec.outcome {
             ensure!(!*earlier_pending, "C11", "C11/ack-order", "thread {} op {}: a later queued acknowledgement of the same thread completed while this one was still pending", write.rec.thread, write.rec.index);
             if *stalled { return Err(Failure::new("STALL", "stall/ack", format!("thread {} op {} ({} of key {}): the acknowledgement never completed: the command was dropped or the worker is blocked", write.rec.thread, write.rec.index, write.kind, write.key))); }
@@ -230,6 +240,9 @@ pub fn check_c13(history: &History) -> Check {
     for rec in recs {
         let after_shutdown = first_shutdown_end.map(|end| rec.start > end).unwrap_or(false);
         match &rec.outcome {
+            Outcome::Write { kind: "forgotten-put", err, key, .. } => {
+                if after_shutdown { ensure!(*err, "C13", "C13/write-accepted-after-shutdown", "thread {} op {}: put of key {} began after shutdown() had returned and did not return Err", rec.thread, rec.index, key); }
+            }
             Outcome::Write { err, status, stalled, kind, key, ack, immediate, .. } => {
                 if after_shutdown { ensure!(*err, "C13", "C13/write-accepted-after-shutdown", "thread {} op {}: {} of key {} began after shutdown() had returned and did not return Err (status {:?})", rec.thread, rec.index, kind, key, status); }
                 if !*err {
@@ -320,6 +333,11 @@ pub fn check_c11_final(history: &History, snapshot: &Snapshot<u64>) -> Check {
     let mut by_key: BTreeMap<u8, Vec<&WriteView>> = BTreeMap::new();
     for write in &writes { by_key.entry(write.key).or_default().push(write); }
     for (k, list) in &by_key {
+        // a key written exactly once, by a put whose acknowledgement was dropped unread, in a cache far from full: the put
+        // is applied all the same, the key must be held at quiescence (nothing else could have removed it)
+        if list.len() == 1 && list[0].kind == "forgotten-put" && !list[0].err && snapshot.max_weight >= 4000 && !history.shutdown_called {
+            ensure!(snapshot.store.iter().any(|entry| entry.key == *k as u64), "C11", "C11/forgotten-put-not-applied", "thread {} op {}: put of key {} (only write of that key, acknowledgement dropped without being polled, cache far from full) was never applied: the key is not held at quiescence", list[0].rec.thread, list[0].rec.index, k);
+        }
         let threads: BTreeSet<usize> = list.iter().map(|write| write.rec.thread).collect();
         if threads.len() != 1 { continue; }
         let last = list.iter().max_by_key(|write| write.rec.index).unwrap();
@@ -569,11 +587,12 @@ fn cop_strategy(profile: ConcProfile, max_key: u8) -> BoxedStrategy<COp> {
     let read = (read_kind_strategy(), prop::collection::vec(key.clone(), 1..=4)).prop_map(|(kind, keys)| COp::Read { kind, keys });
     let hold = (key.clone(), 1u16..400).prop_map(|(k, micros)| COp::HoldRef { k, micros });
     match profile {
-        ConcProfile::General => prop_oneof![5 => put, 4 => upsert, 3 => delete, 8 => read, 1 => Just(COp::AwaitAll), 1 => (1u8..4).prop_map(COp::Pause)].boxed(),
+        ConcProfile::General => prop_oneof![5 => put, 4 => upsert, 3 => delete, 8 => read, 1 => Just(COp::AwaitAll), 1 => (1u8..4).prop_map(COp::Pause), 1 => (40u8..120).prop_map(|k| COp::Forget { k })].boxed(),
         ConcProfile::Shutdown => prop_oneof![6 => put, 3 => upsert, 3 => delete, 5 => read, 1 => Just(COp::AwaitAll), 1 => Just(COp::Shutdown)].boxed(),
         ConcProfile::Reads => prop_oneof![1 => put, 30 => read, 1 => hold].boxed(),
         ConcProfile::Deadlock => prop_oneof![5 => put, 6 => upsert, 3 => delete, 6 => read, 2 => hold, 1 => Just(COp::AwaitAll)].boxed(),
-        ConcProfile::Bursts | ConcProfile::DeleteWindow | ConcProfile::EvictVsSweep | ConcProfile::PutContention | ConcProfile::TightFit | ConcProfile::SweepRace | ConcProfile::Sched => prop_oneof![6 => put, 2 => upsert, 4 => delete, 1 => read].boxed(),
+        ConcProfile::Bursts => prop_oneof![6 => put, 2 => upsert, 4 => delete, 1 => read, 2 => (40u8..120).prop_map(|k| COp::Forget { k })].boxed(),
+        ConcProfile::DeleteWindow | ConcProfile::EvictVsSweep | ConcProfile::PutContention | ConcProfile::TightFit | ConcProfile::SweepRace | ConcProfile::Sched => prop_oneof![6 => put, 2 => upsert, 4 => delete, 1 => read].boxed(),
     }
 }
 
@@ -774,7 +793,7 @@ pub fn conc_case_strategy(profile: ConcProfile, thorough: bool) -> BoxedStrategy
         if profile == ConcProfile::Bursts {
             // half of the key range is private to each thread (put -> delete chains whose final state is determined)
             for (thread, ops) in threads.iter_mut().enumerate() {
-                let private = |k: u8| if k >= 4 { 16 + (thread as u8) * 4 + (k - 4) % 4 } else { k };
+                let private = |k: u8| if (4..40).contains(&k) { 16 + (thread as u8 % 6) * 4 + (k - 4) % 4 } else { k };
                 for op in ops.iter_mut() {
                     match op {
                         COp::Put { k, .. } | COp::Upsert { k, .. } | COp::Delete { k, .. } => *k = private(*k),
